@@ -2,22 +2,22 @@ claim("C01", "SSA dominance facts (must-pass-through) + error-flow analysis + fi
       "Decides: every layout-trusting call and every success return of both entry points is dominated by a successful "
       "VerifyLayoutSignatures(env, keys) on the unmodified parameters; the guard's shape (non-empty key set, all keys, errors fail); "
       "the enforced Layout derives from GetPayload() of the verified object; signature is bound to the enforced bytes per wrapper; "
-      "strict decoding; no dropped errors (incl. unexported helpers and errors carried around loops); every loop below the guard visits all elements or fails; no write through the caller's layout. Entry-point rules look through unexported helper frames (depth 3). Does not decide cryptographic soundness.", "4.1")
+      "strict decoding; the payload loader returns the decoded object unmodified (R-C11-6); no dropped errors (incl. unexported helpers and errors carried around loops); every loop below the guard visits all elements or fails; no write through the caller's layout. Entry-point rules look through unexported helper frames (depth 3). Does not decide cryptographic soundness.", "4.1")
 claim("C05", "SSA def-use wiring + path facts over the compare loop + access-path tables",
       "Decides: only verified links flow through sublayouts/reduce/rules/summary; every link of a step is compared on materials and "
       "products on every path to the loop latch and mismatches fail; summary endpoints are Steps[0].Materials / Steps[len-1].Products / the "
-      "requested name; nothing that receives the verified link map up to and including the agreement check writes through it (effects analysis with the map as owned memory), except the sublayout replacement; the loops are exhaustive. Does not decide DeepEqual semantics or rule verdicts.", "4.5")
+      "requested name; nothing that receives the verified link map up to and including the agreement check writes through it (effects analysis with the map as owned memory), except the sublayout replacement; the loops are exhaustive (the compare loop may range over the map or over its complete sorted key list); every counted sublayout is replaced by the summary of its own verification (shared R-C08-1/3). Does not decide DeepEqual semantics or rule verdicts.", "4.5")
 claim("C06", "SSA dominance facts (must-pass-through) + constant/time-layout table + branch polarity evaluation",
       "Decides: every later stage and success return is dominated by a successful expiry check of the verified layout; the check parses a "
-      "constant full-UTC layout, propagates parse errors and fails for an expiry in the past; the expiry check is found by what it does (parses layout.Expires, compares with the clock), and the reference time is time.Now() in the check or a parameter every call site fills with a fresh time.Now(). Does not decide clock behaviour.", "4.6")
+      "constant full-UTC layout, propagates parse errors and fails for an expiry in the past; the expiry check is found by what it does (parses layout.Expires — directly or through a one-argument parse helper — as UTC, compares with the clock), and the reference time is time.Now() in the check or a parameter every call site fills with a fresh time.Now(). Does not decide clock behaviour.", "4.6")
 claim("C08", "SSA shape analysis of VerifySublayouts + call-graph identity of the recursive entry point",
       "Decides: every Layout payload in the verified map is passed to the same verification entry point with exactly the parent layout's "
       "key of the counted functionary, the <step>.<8-char keyid> directory and the step name; its error fails; the summary replaces it. "
-      "Does not decide termination on adversarial directory structures.", "4.8")
+      "VerifySublayouts receives the directory this layout's own links were loaded from (shared option wiring R-C09-6). Does not decide termination on adversarial directory structures.", "4.8")
 claim("C09", "SSA dominance facts (ordering) + shape analysis + who-may-call",
       "Decides: inspections run only after all step checks succeeded and success requires successful inspections and inspection rules; "
       "RunInspections runs every inspection's own command in order, fails on start failure and non-zero status; exit-status type agreement; "
-      "materials before / products after the command; os/exec only via RunInspections->InTotoRun->RunCommand; MATCH guards of the shared rule engine (hash equality before consumption); exhaustive loops. Does not decide artifact recording.", "4.9")
+      "materials before / products after the command; os/exec only via RunInspections->InTotoRun->RunCommand; the shared rule engine's MATCH guards, queue / consumption wiring and failing rule types (R-C03-4/5/6); exhaustive loops. Does not decide artifact recording.", "4.9")
 claim("C14", "typestate over *exec.Cmd in SSA + def-use pairing of streams and keys + error-flow",
       "Decides: the two pipes of one Cmd are never drained sequentially in the waiting goroutine; Wait dominates success returns and follows "
       "reads; return-value/stdout/stderr derive from Wait/stdout/stderr respectively; empty command refused before indexing; a Start/Run error is returned unless it is an *exec.ExitError (disjunctive branch facts); no blocking drain under a mutex; no exec.Cmd option (WaitDelay, Cancel, CommandContext) that makes Wait fail for a command that exited. Does not decide timing "
@@ -26,14 +26,14 @@ claim("C02", "SSA guarded-store analysis (dominance facts keyed by value identit
       "Decides: a link is stored in the verified map only under a successful VerifySignature with layout.Keys[id] for an id of the current step's "
       "PubKeys equal to the map key, or with the link's own certificate after a successful CheckCertConstraints of the current step and with the "
       "certificate's own key id as map key; threshold comparison fails iff len < threshold, for every step; loader keys files by their own signature "
-      "selected by file-name prefix and skips garbage. Does not decide the cryptography or constraint semantics.", "4.2")
+      "selected by file-name prefix and skips garbage; the guards are also found inside an unexported helper whose nil result dominates the store (guard frames); the certificate route trusts only the layout's roots: both certificate pools are non-nil on every success return and the root pool is fed from layout.RootCas only (shared R-C07-3/4). Does not decide the cryptography or constraint semantics.", "4.2")
 claim("C10", "map-order independence analysis (A3) + interprocedural effects/alias analysis (A4) + hidden-input reachability",
       "Decides: no range over a Go map on the verification paths leaks iteration order (loop-carried state, early element exit, unsorted accumulation, "
       "insertion into the ranged map); no write through memory reachable from the entry points' parameters; time/env/randomness only in the expiry check; "
       "no mutable package state. Does not decide determinism of the file system, commands or crypto/x509.", "4.10")
 claim("C16", "global-write analysis over SSA (package-level state, process-global mutators, shared results)",
       "Decides a sufficient structural condition: no package-level variable of in_toto/internal/spiffe is written or written through outside init, no "
-      "process-global mutators are called, dependency globals reached are read-only, no exported function returns package-level memory; sync.Map/Pool/Mutex/Once/atomic operations on package-level variables count as shared state (stronger than the property: a correct pool would be reported too). No exported function writes through its slice/map/pointer parameters (effects analysis), except two reviewed pipeline stages. Does not "
+      "process-global mutators are called, dependency globals reached are read-only, no exported function returns package-level memory; sync.Map/Pool/Mutex/Once/atomic operations and channel send/receive/select on package-level variables count as shared state (stronger than the property: a correct pool would be reported too). No exported function writes through its slice/map/pointer parameters (effects analysis), except two reviewed pipeline stages. Does not "
       "decide races inside the runtime/stdlib.", "4.16")
 claim("C03", "keyword/grammar table agreement + per-arm facts on phi edges + guarded-store analysis in the MATCH helper + error-flow",
       "Decides: parser, interpreter and spec keyword sets agree; the parser's MATCH grammar table (lengths, keyword positions, extracted fields) and the "
@@ -41,7 +41,7 @@ claim("C03", "keyword/grammar table agreement + per-arm facts on phi edges + gua
       "(created/deleted/modified defined correctly); MATCH consumes only under pattern match, destination existence, hash equality and prefix membership. "
       "Every item / round / rule / artifact loop is left only by exhaustion or failure (no rule is skipped). Does NOT decide agreement of the interpreter with the spec on all rule programs (set algebra, glob semantics).", "4.3")
 claim("C04", "sibling agreement of Sign/VerifySignature over SSA def-use + key-type table agreement + constant tables",
-      "Decides: sign and verify use the same bytes and the same signer/verifier constructor per wrapper; signatures accumulate in both wrappers; hex "
+      "Decides: sign and verify use the same bytes and the same signer/verifier constructor per wrapper; signatures accumulate in both wrappers (the new list is a plain append to the whole previous list, directly or in one helper); hex "
       "codec pair and key id; key-type tables agree with matching constructors; wrapper detection and payload-type constant. Does not decide cryptographic soundness.", "4.4")
 claim("C07", "struct-field coverage + closure/parameter provenance chains + dominance facts + option-literal inspection",
       "Decides: all six attribute checks are evaluated and accumulated, every constraint field is read; chain verification precedes root comparison "
@@ -50,7 +50,7 @@ claim("C07", "struct-field coverage + closure/parameter provenance chains + domi
 claim("C11", "type-level JSON schema extraction compared with a frozen wire-format table + encoder provenance of the DSSE payload",
       "Decides: the JSON view of all metadata types equals the in-toto schema (names, omitempty, kinds, no custom marshalers); the legacy signable bytes are "
       "cjson.EncodeCanonical(Signed) unprocessed; the DSSE payload bytes come from encoding/json or from cjson only under json.Valid; strict decoding; cjson "
-      "panics recovered. Does not decide injectivity or reference equality of canonical JSON.", "4.11")
+      "panics recovered; the payload loader returns the decoded object unmodified (no store and no call that writes through it between Decode and return: A4). Does not decide injectivity or reference equality of canonical JSON.", "4.11")
 claim("C12", "sibling cross-check of the two loaders + nil-dereference facts + static reachability of the validator family + constant tables",
       "Decides: both loaders nil-test raw parts, share the strict decoder and fail on its error; required-field check uses the decoded type and refuses a member only when its key is absent (null written by the writers loads back); unknown markers "
       "fail; writer/reader key agreement; every validator (incl. inspections) is wired from ValidateMetablock; format constants; constructors initialise the "
